@@ -68,6 +68,8 @@ pub struct M<'tcx> {
     pub depth: usize,
     pub fmt_ty: Option<Ty<'tcx>>,
     pub visited: std::collections::BTreeSet<String>,
+    /// types of values parked in allocations by the models (e.g. the arbitrary iterator inside a modelled zip)
+    pub alloc_tys: std::collections::HashMap<usize, Ty<'tcx>>,
 }
 
 pub fn tyenv<'tcx>() -> TypingEnv<'tcx> {
@@ -117,7 +119,7 @@ pub fn peel_refs<'tcx>(mut t: Ty<'tcx>) -> Ty<'tcx> {
 
 impl<'tcx> M<'tcx> {
     pub fn new(tcx: TyCtxt<'tcx>, cfg: Config) -> Self {
-        M { tcx, terms: Terms::default(), allocs: vec![], alloc_names: vec![], steps: 0, cfg, script: vec![], pos: 0, conds: vec![], events: vec![], depth: 0, fmt_ty: None, visited: Default::default() }
+        M { tcx, terms: Terms::default(), allocs: vec![], alloc_names: vec![], steps: 0, cfg, script: vec![], pos: 0, conds: vec![], events: vec![], depth: 0, fmt_ty: None, visited: Default::default(), alloc_tys: Default::default() }
     }
 
     pub fn reset_path(&mut self) {
@@ -128,6 +130,7 @@ impl<'tcx> M<'tcx> {
         self.conds.clear();
         self.events.clear();
         self.depth = 0;
+        self.alloc_tys.clear();
     }
 
     /// advance the decision script to the next unexplored path; false when exhausted
